@@ -10,7 +10,6 @@ package vrt
 
 import (
 	"encoding/binary"
-	"errors"
 	"hash"
 	"os"
 
@@ -65,22 +64,32 @@ func InstallBloom() {
 		for _, x := range b.hashes {
 			out = binary.LittleEndian.AppendUint64(out, x)
 		}
-		if err := os.WriteFile(path, out, 0o666); err != nil {
-			return 0, err
+		// like the real WriteFile: a failing create is reported; a failing write is not - its deferred
+		// "err = w.Close()" overwrites the result of WriteTo, so the caller sees the result of Close
+		w, err := os.Create(path)
+		if err != nil {
+			return -1, err
 		}
-		return int64(len(out)), nil
+		w.Write(out)
+		return int64(len(out)), w.Close()
 	})
 	Redirect(p+"ReadFile", func(path string) (*bloomfilter.Filter, int64, error) {
+		// like the real ReadFile: a failing open is reported; a damaged or short file is not - its deferred
+		// "err = r.Close()" overwrites the result of ReadFrom, so the caller gets (nil, -1, nil) and goes on
+		// without a filter
+		if _, err := os.Stat(path); err != nil {
+			return nil, -1, err
+		}
 		data, err := os.ReadFile(path)
 		if err != nil {
-			return nil, 0, err
+			return nil, -1, nil
 		}
 		if len(data) < 1 {
-			return nil, 0, errors.New("bloom: empty file")
+			return nil, -1, nil
 		}
 		n := Concrete(int(data[0]))
 		if len(data) != 1+8*n {
-			return nil, 0, errors.New("bloom: bad length")
+			return nil, -1, nil
 		}
 		f := &bloomfilter.Filter{}
 		b := bloomOf(f)
